@@ -12,6 +12,9 @@ import (
 
 const queryEventChannelSize = 10
 
+// Interval for polling if the subscription of an expired query event is drained.
+const queryEventDrainPoll = time.Millisecond
+
 // QueryRequest has methods for responding to query requests.
 type QueryRequest interface {
 	Resource
@@ -31,10 +34,11 @@ type queryRequest struct {
 }
 
 type queryEvent struct {
-	r   resource
-	sub *nats.Subscription
-	ch  chan *nats.Msg
-	cb  func(r QueryRequest)
+	r    resource
+	sub  *nats.Subscription
+	ch   chan *nats.Msg
+	done chan struct{} // Closed once the subscription is drained after the query event has expired
+	cb   func(r QueryRequest)
 }
 
 // Model sends a model response for the query request.
@@ -129,14 +133,44 @@ func (qr *queryRequest) Timeout(d time.Duration) {
 }
 
 // startQueryListener listens for query requests and passes them on to a worker.
+// Once the query event has expired and the subscription is drained, it passes
+// on any request still in the channel, followed by the last call to the
+// callback with nil, before it returns.
 func (qe *queryEvent) startQueryListener() {
-	for m := range qe.ch {
-		m := m
-		verifPoint("query.recv", m)
-		qe.r.s.runWith(qe.r.Group(), func() {
-			qe.handleQueryRequest(m)
-		})
+	drained := false
+	for !drained {
+		select {
+		case m := <-qe.ch:
+			qe.queueQueryRequest(m)
+		case <-qe.done:
+			drained = true
+		}
 	}
+	// No more messages are delivered on the channel. Pass on what is left.
+	for len(qe.ch) > 0 {
+		qe.queueQueryRequest(<-qe.ch)
+	}
+	qe.r.s.runWith(qe.r.Group(), func() {
+		qe.cb(nil)
+	})
+	verifPoint("query.nilqueued", qe.sub)
+}
+
+// queueQueryRequest passes a query request on to a worker.
+func (qe *queryEvent) queueQueryRequest(m *nats.Msg) {
+	verifPoint("query.recv", m)
+	qe.r.s.runWith(qe.r.Group(), func() {
+		qe.handleQueryRequest(m)
+	})
+}
+
+// waitDrained waits for the subscription to be drained, after which nats no
+// longer delivers any message on the channel, and then signals the listener.
+func (qe *queryEvent) waitDrained() {
+	for qe.sub.IsValid() {
+		time.Sleep(queryEventDrainPoll)
+	}
+	close(qe.done)
 }
 
 // handleQueryRequest is called by the query listener on incoming query requests.
